@@ -1101,3 +1101,140 @@ def pkesk_body(keyid, algo, fields):
             raise PGPError('wrapped key length')
         return b + mpi(fields[0]) + bytes([len(w)]) + w
     raise PGPError('PKESK algorithm %d' % algo)
+
+
+# ------------------------------------------------------------------------------------------------ ECDSA P-256, Ed25519
+# NIST P-256 domain parameters (FIPS 186-4 D.1.2.3); checked below: G is on the curve and n*G is the point at infinity
+P256_P = 2 ** 256 - 2 ** 224 + 2 ** 192 + 2 ** 96 - 1
+P256_B = 0x5ac635d8aa3a93e7b3ebbd55769886bc651d06b0cc53b0f63bce3c3e27d2604b
+P256_N = 0xffffffff00000000ffffffffffffffffbce6faada7179e84f3b9cac2fc632551
+P256_G = (0x6b17d1f2e12c4247f8bce6e563a440f277037d812deb33a0f4a13945d898c296,
+          0x4fe342e2fe1a7f9b8ee7eb4a7c0f9e162bce33576b315ececbb6406837bf51f5)
+
+
+def _p256_add(P, Q):
+    p = P256_P
+    if P is None:
+        return Q
+    if Q is None:
+        return P
+    if P[0] == Q[0]:
+        if (P[1] + Q[1]) % p == 0:
+            return None
+        lam = (3 * P[0] * P[0] - 3) * pow(2 * P[1], -1, p) % p
+    else:
+        lam = (Q[1] - P[1]) * pow(Q[0] - P[0], -1, p) % p
+    x = (lam * lam - P[0] - Q[0]) % p
+    return x, (lam * (P[0] - x) - P[1]) % p
+
+
+def _p256_mul(k, P):
+    Rr = None
+    while k:
+        if k & 1:
+            Rr = _p256_add(Rr, P)
+        P = _p256_add(P, P)
+        k >>= 1
+    return Rr
+
+
+def _p256_on_curve(P):
+    return P is not None and (P[1] * P[1] - (P[0] ** 3 - 3 * P[0] + P256_B)) % P256_P == 0
+
+
+assert _p256_on_curve(P256_G) and _p256_mul(P256_N, P256_G) is None
+
+
+def ecdsa_p256_verify(point, r, s, dig):
+    """point: 65 octets 04||X||Y.  FIPS 186-4 6.4: z = leftmost min(256, len) bits of the digest."""
+    if len(point) != 65 or point[0] != 4:
+        raise PGPError('P-256 point format')
+    Q = (int.from_bytes(point[1:33], 'big'), int.from_bytes(point[33:], 'big'))
+    if not _p256_on_curve(Q):
+        return False
+    n = P256_N
+    if not (0 < r < n and 0 < s < n):
+        return False
+    z = int.from_bytes(dig, 'big')
+    if len(dig) * 8 > 256:
+        z >>= len(dig) * 8 - 256
+    w = pow(s, -1, n)
+    X = _p256_add(_p256_mul(z * w % n, P256_G), _p256_mul(r * w % n, Q))
+    return X is not None and X[0] % n == r
+
+
+# Ed25519 (RFC 8032 5.1)
+ED_P = 2 ** 255 - 19
+ED_L = 2 ** 252 + 27742317777372353535851937790883648493
+ED_D = -121665 * pow(121666, -1, ED_P) % ED_P
+
+
+def _ed_add(P, Q):
+    x1, y1 = P
+    x2, y2 = Q
+    t = ED_D * x1 * x2 * y1 * y2 % ED_P
+    x3 = (x1 * y2 + x2 * y1) * pow(1 + t, -1, ED_P) % ED_P
+    y3 = (y1 * y2 + x1 * x2) * pow(1 - t, -1, ED_P) % ED_P
+    return x3, y3
+
+
+def _ed_mul(k, P):
+    Rr = (0, 1)
+    while k:
+        if k & 1:
+            Rr = _ed_add(Rr, P)
+        P = _ed_add(P, P)
+        k >>= 1
+    return Rr
+
+
+def _ed_decode(b):
+    if len(b) != 32:
+        return None
+    y = int.from_bytes(b, 'little')
+    sign = y >> 255
+    y &= (1 << 255) - 1
+    if y >= ED_P:
+        return None
+    u = (y * y - 1) % ED_P
+    v = (ED_D * y * y + 1) % ED_P
+    x = pow(u * pow(v, -1, ED_P) % ED_P, (ED_P + 3) // 8, ED_P)
+    if (x * x - u * pow(v, -1, ED_P)) % ED_P != 0:
+        x = x * pow(2, (ED_P - 1) // 4, ED_P) % ED_P
+    if (x * x - u * pow(v, -1, ED_P)) % ED_P != 0:
+        return None
+    if x == 0 and sign:
+        return None
+    if x & 1 != sign:
+        x = ED_P - x
+    return x, y
+
+
+_ED_B = _ed_decode((4 * pow(5, -1, ED_P) % ED_P).to_bytes(32, 'little'))
+assert _ed_mul(ED_L, _ED_B) == (0, 1)
+
+
+def _ed_encode(P):
+    return (P[1] | ((P[0] & 1) << 255)).to_bytes(32, 'little')
+
+
+def ed25519_verify(pub, r, s, msg):
+    """pub: 32 native octets; r, s: the OpenPGP MPI values (big-endian readings of the native R and S octets)"""
+    if r >> 256 or s >> 256:
+        return False
+    Rb = r.to_bytes(32, 'big')
+    Sb = s.to_bytes(32, 'big')
+    A = _ed_decode(pub)
+    Rp = _ed_decode(Rb)
+    S = int.from_bytes(Sb, 'little')
+    if A is None or Rp is None or S >= ED_L:
+        return False
+    k = int.from_bytes(hashlib.sha512(Rb + pub + msg).digest(), 'little') % ED_L
+    return _ed_mul(S, _ED_B) == _ed_add(Rp, _ed_mul(k, A))
+
+
+# RFC 8032 7.1 test 1
+assert ed25519_verify(bytes.fromhex('d75a980182b10ab7d54bfed3c964073a0ee172f3daa62325af021a68f707511a'),
+                      int('e5564300c360ac729086e2cc806e828a84877f1eb8e5d974d873e065224901555', 16) >> 4 if False else
+                      int.from_bytes(bytes.fromhex('e5564300c360ac729086e2cc806e828a84877f1eb8e5d974d873e06522490155'), 'big'),
+                      int.from_bytes(bytes.fromhex('5fb8821590a33bacc61e39701cf9b46bd25bf5f0595bbe24655141438e7a100b'), 'big'), b'')
